@@ -252,6 +252,7 @@ func checkC08(p *Prog, res *Result, tier string) {
 				res.add("C08-R5", o.Rule+" "+o.Construct, o.Status, o.Pos, o.Detail)
 			}
 		}
+		checkPointReadOnlyForSingleKey(p, res, "C08-R2")
 		// ---- R6: the compaction record is written without an engine TTL (C17-R5) ----
 		for _, o := range p.subResult("C17", tier).Obls {
 			if o.Rule == "C17-R5" && strings.Contains(o.Construct, "TTL operand") && (strings.Contains(o.Construct, "setCompactRecord") || strings.Contains(o.Construct, "checkCompactRace")) {
@@ -771,5 +772,48 @@ func checkGuardDetails(p *Prog, r *Roles, ck *compactKeyRole, res *Result, f *ss
 		} else {
 			res.bad("C08-R3", construct, p.pos(call.Pos()), "the engine snapshot timestamp is taken after (or not on every path before) the floor check: a compaction can slip between check and snapshot")
 		}
+	}
+}
+
+// checkPointReadOnlyForSingleKey: the point read (Get) is served without looking at the compaction floor - it reads
+// the newest version at or below the revision directly. Only a request that names no range end may be routed to it; a
+// request with a range end, however narrow, is a range read and goes through the scanner, which refuses revisions below
+// the floor. In the etcd Range handler every call of the shim's Get is dominated by len(RangeEnd) == 0.
+func checkPointReadOnlyForSingleKey(p *Prog, res *Result, rule string) {
+	ep := p.ssaPkg("pkg/server/etcd")
+	getM := p.ifaceMethod("pkg/server/etcd", "BackendShim", "Get")
+	n := 0
+	for _, f := range p.AllFuncs {
+		if f.Pkg != ep || f.Blocks == nil || f.Synthetic != "" {
+			continue
+		}
+		k := 0
+		for _, c := range callsIn(f) {
+			if !c.Common().IsInvoke() || c.Common().Method != getM {
+				continue
+			}
+			k++
+			n++
+			construct := fmt.Sprintf("%s: point read #%d only for a request without range end", funcName(f), k)
+			good := false
+			for _, cf := range dominatingFacts(c.Block()) {
+				if cf.X == nil || !isZeroConst(cf.Y) || !((cf.Op == token.EQL && cf.Want) || (cf.Op == token.NEQ && !cf.Want)) {
+					continue
+				}
+				if lc, ok := resolve(cf.X).(*ssa.Call); ok {
+					if bi, ok := lc.Common().Value.(*ssa.Builtin); ok && bi.Name() == "len" && strings.HasSuffix(accessPath(lc.Common().Args[0]), ".RangeEnd") {
+						good = true
+					}
+				}
+			}
+			if good {
+				res.ok(rule, construct, p.pos(c.Pos()), "dominated by len(RangeEnd) == 0")
+			} else {
+				res.bad(rule, construct, p.pos(c.Pos()), "a request that names a range end is answered by the point read, which never consults the compaction floor: a range read at a revision below an accepted compaction is served (with whatever is left of the key) instead of being refused")
+			}
+		}
+	}
+	if n == 0 {
+		res.und(rule, "etcd Range handler: point read", "-", "no call of the shim's Get found")
 	}
 }
